@@ -19,6 +19,7 @@ func checkC10(c *Check, a *Anchors) {
 	c10EnvMergeOrder(c, a)
 	c10OSEnvWins(c, a)
 	c10PhaseSources(c, a)
+	environIsLowest(c, a)
 }
 
 // phaseOf classifies the expression a getVariables loop ranges over.
